@@ -5,7 +5,10 @@
 
 package webrtc
 
-import "github.com/pion/sdp/v3"
+import (
+	"github.com/pion/datachannel"
+	"github.com/pion/sdp/v3"
+)
 
 // Spec functions for the contract-based verification in /verif (build tag verif).
 // They are ordinary Go in a pure subset: translated to SMT by govc, compiled
@@ -191,4 +194,43 @@ func specICEControlling(weOffer, remoteLite, localLite bool) bool {
 	}
 
 	return weOffer
+}
+
+// ---- C19: DCEP channel type <-> (ordered, maxRetransmits, maxPacketLifeTime)  (RFC 8832 section 5.1)
+
+// specChannelType: the DATA_CHANNEL_OPEN channel type announcing the given reliability.
+func specChannelType(ordered, hasRetransmits, hasLifeTime bool) datachannel.ChannelType {
+	switch {
+	case hasRetransmits && ordered:
+		return datachannel.ChannelTypePartialReliableRexmit
+	case hasRetransmits:
+		return datachannel.ChannelTypePartialReliableRexmitUnordered
+	case hasLifeTime && ordered:
+		return datachannel.ChannelTypePartialReliableTimed
+	case hasLifeTime:
+		return datachannel.ChannelTypePartialReliableTimedUnordered
+	case ordered:
+		return datachannel.ChannelTypeReliable
+	}
+
+	return datachannel.ChannelTypeReliableUnordered
+}
+
+func specTypeOrdered(t datachannel.ChannelType) bool {
+	return t == datachannel.ChannelTypeReliable || t == datachannel.ChannelTypePartialReliableRexmit ||
+		t == datachannel.ChannelTypePartialReliableTimed
+}
+
+func specTypeHasRetransmits(t datachannel.ChannelType) bool {
+	return t == datachannel.ChannelTypePartialReliableRexmit || t == datachannel.ChannelTypePartialReliableRexmitUnordered
+}
+
+func specTypeHasLifeTime(t datachannel.ChannelType) bool {
+	return t == datachannel.ChannelTypePartialReliableTimed || t == datachannel.ChannelTypePartialReliableTimedUnordered
+}
+
+// specValidChannelType: the six channel types RFC 8832 defines.
+func specValidChannelType(t datachannel.ChannelType) bool {
+	return t == datachannel.ChannelTypeReliable || t == datachannel.ChannelTypeReliableUnordered ||
+		specTypeHasRetransmits(t) || specTypeHasLifeTime(t)
 }
